@@ -128,6 +128,19 @@ def split_case(prog):
     wantm = sorted((tuple(r), int(l)) for r, l in zip(X0.tolist(), Y0.tolist()))
     if got != wantm:
         return "merging the two sets does not give back the original samples", "merge loses samples"
+    # the order in which the two sets are handed to merge must not matter ("up to order")
+    # (the very objects returned by split() and by split_with_index() are handed back)
+    for name, (A1, A2, B1, B2) in (("split_with_index", (r6[0], r6[1], r6[2], r6[3])),
+                                   ("split", (r4[0], r4[1], r4[2], r4[3]))):
+        for order, args in (("first-second", (A1, A2, B1, B2)), ("second-first", (A2, A1, B2, B1))):
+            try:
+                Xs, Ys = splitter.merge(*args)
+            except Exception as ex:
+                return "merge(%s) of %s() output raised %r" % (order, name, ex), "merge raised"
+            got2 = sorted((tuple(r), int(l)) for r, l in zip(np.asarray(Xs).tolist(), np.asarray(Ys).tolist()))
+            if got2 != wantm:
+                return ("merging the two sets returned by %s() %s does not give back the original (feature, "
+                        "label) pairs: %s" % (name, order, got2)), "merge loses or mislabels samples"
     return None, None
 
 
